@@ -10,7 +10,12 @@ use sha1::Sha1;
 use std::collections::{BTreeMap, HashMap, VecDeque};
 use std::sync::atomic::{AtomicBool, AtomicU32, AtomicU64, AtomicUsize, Ordering};
 use std::sync::{Arc, Weak};
+#[cfg(not(rustrtc_verif))]
 use std::time::{Duration, Instant};
+#[cfg(rustrtc_verif)]
+use std::time::Duration;
+#[cfg(rustrtc_verif)]
+use crate::verif_hooks::Instant;
 use tokio::sync::{Notify, mpsc};
 use tracing::{debug, trace};
 
@@ -849,6 +854,8 @@ impl SctpTransport {
                 let mut key = [0u8; 16];
                 use rand::Rng;
                 rand::rng().fill_bytes(&mut key);
+                #[cfg(rustrtc_verif)]
+                crate::verif_hooks::fill_random(&mut key);
                 key
             },
             inbound_streams: Mutex::new(HashMap::new()),
@@ -1316,6 +1323,8 @@ impl SctpInner {
             .duration_since(UNIX_EPOCH)
             .unwrap_or_default()
             .as_millis() as u64;
+        #[cfg(rustrtc_verif)]
+        let now_ms = crate::verif_hooks::unix_millis();
         let timestamp = now_ms.to_be_bytes();
         let mut mac = <HmacSha1 as hmac::digest::KeyInit>::new_from_slice(&self.cookie_hmac_key)
             .expect("HMAC key length is valid");
@@ -1349,6 +1358,8 @@ impl SctpInner {
             .duration_since(UNIX_EPOCH)
             .unwrap_or_default()
             .as_millis() as u64;
+        #[cfg(rustrtc_verif)]
+        let now_ms = crate::verif_hooks::unix_millis();
         if now_ms < stamp_ms || now_ms - stamp_ms > COOKIE_LIFETIME_MS {
             return false;
         }
@@ -1501,6 +1512,8 @@ impl SctpInner {
         self.verification_tag.store(local_tag, Ordering::SeqCst);
 
         let initial_tsn = random_u32();
+        #[cfg(rustrtc_verif)]
+        let initial_tsn = crate::verif_hooks::initial_tsn_override().unwrap_or(initial_tsn);
         self.next_tsn.store(initial_tsn, Ordering::SeqCst);
 
         let mut init_params = BytesMut::new();
@@ -1699,6 +1712,8 @@ impl SctpInner {
         init_ack_params.put_u16(10);
         // Initial TSN
         let initial_tsn = random_u32();
+        #[cfg(rustrtc_verif)]
+        let initial_tsn = crate::verif_hooks::initial_tsn_override().unwrap_or(initial_tsn);
         self.next_tsn.store(initial_tsn, Ordering::SeqCst);
         init_ack_params.put_u32(initial_tsn);
 
